@@ -51,6 +51,14 @@ def main():
             for mname in re.findall(r'\("(\w+)", "", "own body"', body): own.add((files[tag], mname))
     except OSError:
         pass
+    # bridge one-liners checked by proofs/delegations/Bridges.v (coq/Delegations.v `bridges`, regenerated on every run)
+    bridge = {}
+    try:
+        bfiles = {"key": "src/key.rs", "primes": "src/primes.rs", "error": "src/error.rs"}
+        bt = txt.split("Definition bridges", 1)[1]
+        for tag, nm in re.findall(r'\("(\w+)", "(\w+)#\d+"', bt): bridge[(bfiles[tag], nm)] = bridge.get((bfiles[tag], nm), 0) + 1
+    except Exception:
+        pass
     rows, tot, tr, dl = [], 0, 0, 0
     for root, _, fs in sorted(os.walk(os.path.join(REPO, "src"))):
         for f in sorted(fs):
@@ -65,6 +73,7 @@ def main():
                 key = (rel, n)
                 if key in translated and len(translated[key]) >= seen[n]: t_.append(n)
                 elif key in translated and rel in deleg: d_.append(n)
+                elif bridge.get(key, 0) > 0: bridge[key] -= 1; d_.append(n)
                 elif rel in deleg and (rel, n) not in own and n in ("encrypt", "decrypt", "decrypter", "encrypter", "write_encrypted_server_header", "write_encrypted_client_header",
                                             "encrypt_server_header", "encrypt_client_header", "read_and_decrypt_server_header", "read_and_decrypt_client_header",
                                             "decrypt_server_header", "decrypt_client_header", "attempt_decrypt_server_header", "decrypt_large_server_header"):
